@@ -155,6 +155,15 @@ def schema_argument(rng, *, modal=False, quant=False, ident=False, depth=2, enum
         lambda: ([neg(box(A))], dia(neg(A))),
     ]
     P1 = rng.choice([F, G]); P2 = rng.choice([F, G]); c = rng.choice(CONSTS); c2 = rng.choice(CONSTS)
+    # gluts / gaps of an n-ary literal at a successor world (seed C02-6: the model reader looked the negation of a
+    # literal with two constants up at the wrong world)
+    d1, d2 = rng.sample(list(CONSTS), 2) if len(CONSTS) > 1 else (CONSTS[0], CONSTS[0])
+    Lit = rng.choice([R2(d1, d2), R2(d2, d1), P1(d1), ATOMS[0]])
+    modals += [
+        lambda: ([dia(b2(O.Conjunction, Lit, neg(Lit)))], B),
+        lambda: ([], box(b2(O.Disjunction, Lit, neg(Lit)))),
+        lambda: ([dia(dia(b2(O.Conjunction, neg(Lit), Lit)))], dia(B)),
+    ]
     U, E = Quantifier.Universal, Quantifier.Existential
     quants = [
         lambda: ([Quantified(U, X, b2(cond, P1(X), R2(X, c))), P1(c)], R2(c, c)),
